@@ -91,6 +91,10 @@ func (st *verifC12) invariant() {
 func VerifC12_Info() {
 	st := verifC12New()
 	st.arbitrary()
+	st.stepInfo()
+}
+
+func (st *verifC12) stepInfo() {
 	i := nondetIntIn(0, 1)
 	ip := verifIPs[i]
 	var inst *gostatsd.Instance
@@ -109,9 +113,9 @@ func VerifC12_Info() {
 	if h != nil {
 		// an answer (first lookup or refresh, successful or not) is not a use of the entry
 		if e.present {
-			verifAssert(h.lastAccessNano == e.lastAccess, "a refresh answer leaves the entry's last-use time alone (idle entries must still be evicted)")
+			verifAssert(verifNowEq(h.lastAccessNano, e.lastAccess), "a refresh answer leaves the entry's last-use time alone (idle entries must still be evicted)")
 		} else {
-			verifAssert(h.lastAccessNano == st.now, "a new entry's last-use time is the time of its creation")
+			verifAssert(verifNowEq(h.lastAccessNano, st.now), "a new entry's last-use time is the time of its creation")
 		}
 	}
 	got, hit := st.ccp.Peek(ip)
@@ -119,14 +123,14 @@ func VerifC12_Info() {
 	switch {
 	case inst != nil:
 		verifAssert(got == inst, "a successful answer is served")
-		verifAssert(h.expires.UnixNano() == st.now+int64(st.ccp.cacheOpts.CacheTTL), "positive entry expires after the TTL")
+		verifAssert(verifNowEq(h.expires.UnixNano(), st.now+int64(st.ccp.cacheOpts.CacheTTL)), "positive entry expires after the TTL")
 		verifReach("positive-answer")
 	case e.present && e.positive:
 		verifAssert(got == e.inst, "a failed or empty refresh keeps serving the instance resolved earlier")
 		verifReach("kept-on-error")
 	default:
 		verifAssert(got == nil, "negative answer is served as negative")
-		verifAssert(h.expires.UnixNano() == st.now+int64(st.ccp.cacheOpts.CacheNegativeTTL), "negative entry expires after the negative TTL")
+		verifAssert(verifNowEq(h.expires.UnixNano(), st.now+int64(st.ccp.cacheOpts.CacheNegativeTTL)), "negative entry expires after the negative TTL")
 	}
 	if e.present {
 		verifAssert(st.ccp.statsCacheRefreshNegative+st.ccp.statsCacheRefreshPositive == refNegBefore+refPosBefore+1, "a refresh is counted once")
@@ -134,9 +138,14 @@ func VerifC12_Info() {
 	// ghost update
 	if inst != nil {
 		e.positive, e.inst = true, inst
-	} else if !e.present {
-		e.positive = false
+		e.expires = st.now + int64(st.ccp.cacheOpts.CacheTTL)
+	} else {
+		if !e.present {
+			e.positive = false
+		}
+		e.expires = st.now + int64(st.ccp.cacheOpts.CacheNegativeTTL)
 	}
+	e.lastAccess = st.now // the Peek above is a use
 	e.present = true
 	st.invariant()
 }
@@ -145,7 +154,10 @@ func VerifC12_Info() {
 func VerifC12_Refresh() {
 	st := verifC12New()
 	st.arbitrary()
-	t := nondetInt64In(verifT0, verifT1)
+	st.stepRefresh(nondetInt64In(verifT0, verifT1))
+}
+
+func (st *verifC12) stepRefresh(t int64) {
 	idle := int64(st.ccp.cacheOpts.CacheEvictAfterIdlePeriod)
 	st.ccp.doRefresh(time.Unix(0, t))
 	requeued := 0
@@ -183,6 +195,10 @@ func VerifC12_Refresh() {
 func VerifC12_Peek() {
 	st := verifC12New()
 	st.arbitrary()
+	st.stepPeek()
+}
+
+func (st *verifC12) stepPeek() {
 	i := nondetIntIn(0, 1)
 	got, hit := st.ccp.Peek(verifIPs[i])
 	e := st.ents[i]
@@ -193,11 +209,79 @@ func VerifC12_Peek() {
 		} else {
 			verifAssert(got == nil, "negative entry served as nil")
 		}
-		verifAssert(st.ccp.cache[verifIPs[i]].lastAccessNano == st.now, "a read refreshes the last-access time")
+		verifAssert(verifNowEq(st.ccp.cache[verifIPs[i]].lastAccessNano, st.now), "a read refreshes the last-access time")
+		st.ents[i].lastAccess = st.now
 		verifReach("hit")
 	}
 	st.invariant()
 }
+
+// VerifC12_Hist k: a HISTORY of k symbolic commands {answer arrives | refresh tick | cache read}
+// from the empty cache, the clock advancing by a symbolic amount before each, with the same
+// per-step oracles and the ghost state carried along. The one-step entries start from an
+// arbitrary cache but cannot populate state the implementation keeps OUTSIDE the cache map and
+// the gauges (a scratch list kept between ticks, a memo): a history reaches it.
+func verifC12Hist(k int) {
+	st := verifC12New()
+	// whole hours plus half an hour for the periods and whole hours for the passing of time: no
+	// comparison sits within microseconds of its boundary, so the real clock of a native replay
+	// follows the same path (the exact boundaries are the one-step entries' business)
+	st.ccp.cacheOpts.CacheEvictAfterIdlePeriod = time.Duration(nondetInt64In(0, 200))*time.Hour + 30*time.Minute
+	st.ccp.cacheOpts.CacheTTL = time.Duration(nondetInt64In(0, 23))*time.Hour + 30*time.Minute
+	st.ccp.cacheOpts.CacheNegativeTTL = time.Duration(nondetInt64In(0, 23))*time.Hour + 30*time.Minute
+	for s := 0; s < k; s++ {
+		// time passes: every time stamp the cache holds moves into the past by delta (the
+		// conditions under test only look at differences to the current time). Done this way,
+		// not by moving the clock, because the native replay runs on the real clock.
+		delta := nondetInt64In(0, 300) * int64(time.Hour)
+		cmd := nondetIntIn(0, 2)
+		if verifNative() {
+			st.now = time.Now().UnixNano()
+		}
+		for i := 0; i < 2; i++ {
+			if h := st.ccp.cache[verifIPs[i]]; h != nil {
+				h.lastAccessNano -= delta
+				h.expires = h.expires.Add(-time.Duration(delta))
+				st.ents[i].lastAccess -= delta
+				st.ents[i].expires -= delta
+			}
+		}
+		switch cmd {
+		case 0:
+			st.stepInfo()
+		case 1:
+			st.stepRefresh(st.now)
+		default:
+			st.stepPeek()
+		}
+		if verifNative() {
+			// the real clock moved a little between the harness's reading and the code's
+			for i := 0; i < 2; i++ {
+				if h := st.ccp.cache[verifIPs[i]]; h != nil {
+					st.ents[i].lastAccess, st.ents[i].expires = h.lastAccessNano, h.expires.UnixNano()
+				}
+			}
+		}
+		// the Run loop hands these on before the next command
+		st.ccp.toLookupIPs = nil
+		st.ccp.toReturnInfo = nil
+	}
+	verifReach("history")
+}
+
+// verifNowEq: equality of two instants; exact symbolically, within 2 s on the real clock of a native replay.
+func verifNowEq(a, b int64) bool {
+	if !verifNative() {
+		return a == b
+	}
+	d := a - b
+	return d > -2000000000 && d < 2000000000
+}
+
+func VerifC12_Hist3() { verifC12Hist(3) }
+func VerifC12_Hist4() { verifC12Hist(4) }
+func VerifC12_Hist5() { verifC12Hist(5) }
+func VerifC12_Hist6() { verifC12Hist(6) }
 
 // --- the lookup dispatcher ---------------------------------------------------------------
 
